@@ -15,6 +15,7 @@ import (
 	"fmt"
 	"go/ast"
 	"go/format"
+	"go/parser"
 	"go/token"
 	"go/types"
 	"os"
@@ -27,7 +28,8 @@ import (
 )
 
 const (
-	rtBase = "github.com/openfga/openfga/internal/verifrt/"
+	rtBase       = "github.com/openfga/openfga/internal/verifrt/"
+	rtBasePublic = "github.com/openfga/openfga/pkg/verifrt/"
 )
 
 var (
@@ -209,7 +211,15 @@ func (r *rewriter) rewriteFile(f *ast.File) {
 						conv = true
 					}
 				} else {
-					fatal("%s: make of a named channel type is not supported", r.pos(x))
+					// make(N, n) with N a named channel type: N(vrt.MakeChan[elem](n))
+					ch, _ := r.info.TypeOf(x.Args[0]).Underlying().(*types.Chan)
+					es := types.TypeString(ch.Elem(), func(p *types.Package) string { return p.Name() })
+					ee, err := parser.ParseExpr(es)
+					if err != nil {
+						fatal("%s: cannot render channel element type %q: %v", r.pos(x), es, err)
+					}
+					elem = ee
+					conv = true
 				}
 				size := ast.Expr(&ast.BasicLit{Kind: token.INT, Value: "0"})
 				if len(x.Args) > 1 {
@@ -499,6 +509,12 @@ func main() {
 				return true
 			})
 			changedImports := false
+			// third-party packages cannot import openfga's internal packages: they get the public
+			// forwarding path (pkg/verifrt), which reaches the same runtime
+			rtBase := rtBase
+			if !strings.HasPrefix(p.PkgPath, "github.com/openfga/openfga/") {
+				rtBase = rtBasePublic
+			}
 			for _, im := range f.Imports {
 				ip, _ := strconv.Unquote(im.Path.Value)
 				var np, alias string
